@@ -107,6 +107,7 @@ let rec out_str = function
   | OPanic -> "panic"
   | OFuel -> "fuel"
   | OPArr (sh, es) -> "parr(" ^ shape_str sh ^ ":" ^ String.concat "," (List.map (fun (a, b) -> z_to_string a ^ "/" ^ z_to_string b) es) ^ ")"
+  | OLArr (sh, es) -> "larr(" ^ shape_str sh ^ ":" ^ String.concat "," (List.map (fun l -> String.concat ";" (List.map (fun s -> "." ^ hex_of_bytes s) l)) es) ^ ")"
   | OList l -> "list(" ^ String.concat ";" (List.map out_str l) ^ ")"
   | OBad -> "bad"
 
